@@ -89,22 +89,48 @@ def parse_tree_record(rng, case, cell, note, prune=False):
             return None
     heap, roots, _ = ck.project([cell])
     rec = {'op': 'parse_tree', 'w': w, 'xw': xw, 'pol': case['pol'] + ('_pruned' if prune else ''), 'note': note, 'cell': heap, 'root': roots[0]}
+    # an inline Hashmap field: the root edge sits in a cell after other fields, some of them references that have been read already
+    # (foo$_ meta:^Cell tag:uint8 items:(Hashmap n X)): the parser is handed the partly consumed slice
+    embed = None
+    if cell.type_ == -1 and rng.random() < 0.5:
+        nb, nr = rng.choice([0, 1, 8]), rng.randint(0 if rng.random() < 0.2 else 1, 2)
+        if len(cell.bits) + nb <= 1023 and len(cell.refs) + nr <= 4:
+            b = Builder().store_bits(bitarray([1, 0, 1, 1, 0, 0, 1, 0][:nb]))
+            for j in range(nr):
+                b.store_ref(Builder().store_uint(0xA0 + j, 8).end_cell())
+            b.store_bits(cell.bits)
+            for r in cell.refs:
+                b.store_ref(r)
+            outer = b.end_cell()
+
+            def embed():
+                sl = outer.begin_parse()
+                sl.load_bits(nb)
+                for _ in range(nr):
+                    sl.load_ref()
+                return sl
+            rec['embedded'] = [nb, nr]
+    start = embed if embed is not None else cell.begin_parse
     try:
         if aug:
             f = rng.choice(['parse_hashmap_aug', 'load_hashmap_aug'])
             xd = lambda s: s.load_bits(len(s.bits))
             yd = lambda s: s.load_bits(xw)
             if f == 'parse_hashmap_aug':
-                d, extras = parse_hashmap_aug(cell.begin_parse(), w, xd, yd)
+                d, extras = parse_hashmap_aug(start(), w, xd, yd)
             else:
-                d, extras = cell.begin_parse().load_hashmap_aug(w, xd, yd)
+                d, extras = start().load_hashmap_aug(w, xd, yd)
             rec['out'] = {'pairs': [[big(k), bitstr(v)] for k, v in d.items()], 'extras': [bitstr(e) for e in extras]}
         else:
-            f = rng.choice(['parse_hashmap', 'HashMap.parse', 'from_cell'])
+            f = rng.choice(['parse_hashmap', 'HashMap.parse', 'from_cell', 'load_hashmap'])
+            if f == 'from_cell' and embed is not None:
+                f = 'load_hashmap'
             if f == 'parse_hashmap':
-                d = {int(k, 2): v for k, v in parse_hashmap(cell.begin_parse(), w).items()}
+                d = {int(k, 2): v for k, v in parse_hashmap(start(), w).items()}
             elif f == 'HashMap.parse':
-                d = HashMap.parse(cell.begin_parse(), w)
+                d = HashMap.parse(start(), w)
+            elif f == 'load_hashmap':
+                d = start().load_hashmap(w)
             else:
                 d = HashMap.from_cell(cell, w).map
             rec['out'] = {'pairs': [[big(k), bitstr(v.bits)] for k, v in d.items()], 'extras': []}
